@@ -211,7 +211,7 @@ Theorem impl_refines_spec_values_partial : forall rules F rank ord syncp order,
   wf_order order ->
   forall env fuel ss k ss' ifuel pfuel s sched sf m, (rank k < fuel)%nat ->
   AtRest F (fixedR rules) ss -> build rules env F order fuel ss k = Ok ss' ->
-  HInv rules F s -> ibuild rules env F ord syncp ifuel pfuel s k sched = (RDone sf, m) -> is_fault sf = None ->
+  ImplInc1.HInv rules F s -> ibuild rules env F ord syncp ifuel pfuel s k sched = (RDone sf, m) -> is_fault sf = None ->
   res_value (res_of sf k) = result_of ss' k.
 Proof. exact refines_spec_values. Qed.
 Print Assumptions impl_refines_spec_values_partial.
